@@ -47,6 +47,10 @@ fn cpu_seconds(pid: u32) -> Option<f64> {
 }
 
 fn spawn(o: &SupOpts, s: &Slot, one: Option<&str>) -> Child {
+    spawn_with(o, s, one, &[])
+}
+
+fn spawn_with(o: &SupOpts, s: &Slot, one: Option<&str>, skip_fes: &[String]) -> Child {
     let exe = std::env::current_exe().expect("exe");
     let mut c = Command::new(exe);
     c.arg("worker")
@@ -72,6 +76,9 @@ fn spawn(o: &SupOpts, s: &Slot, one: Option<&str>) -> Child {
     }
     for kv in &o.opts {
         c.arg("--opt").arg(kv);
+    }
+    if !skip_fes.is_empty() {
+        c.arg("--opt").arg(format!("skipfe={}", skip_fes.join(",")));
     }
     if let Some(f) = one {
         c.arg("--one").arg(f);
@@ -191,6 +198,7 @@ pub fn run(o: SupOpts) -> i32 {
     let mut deaths: BTreeMap<String, u64> = BTreeMap::new();
     let mut watchdog = false;
     let mut confirmed_hangs: std::collections::HashSet<(String, String)> = o.assume_hangs.iter().cloned().collect();
+    let mut skip_fes: Vec<String> = Vec::new();
 
     loop {
         let mut live = 0;
@@ -222,15 +230,17 @@ pub fn run(o: SupOpts) -> i32 {
                 let why = if err.contains("has overflowed its stack") {
                     "stack overflow".to_string()
                 } else if err.contains("AddressSanitizer") {
-                    let top = err
+                    // last report in the log: "<kind> in <function of frame #0>" (no addresses, no pids)
+                    let idx = err.rfind("ERROR: AddressSanitizer").unwrap_or(0);
+                    let rep = &err[idx..];
+                    let kind = rep.lines().next().unwrap_or("").split("AddressSanitizer:").nth(1).unwrap_or("").trim().split(' ').next().unwrap_or("?").to_string();
+                    let func = rep
                         .lines()
-                        .find(|l| l.trim_start().starts_with("#0") || l.trim_start().starts_with("#1"))
-                        .unwrap_or("")
-                        .trim()
-                        .to_string();
-                    format!("asan {}", err.lines().find(|l| l.contains("ERROR: AddressSanitizer")).unwrap_or("").trim())
-                        + " "
-                        + &top
+                        .find(|l| l.trim_start().starts_with("#0"))
+                        .and_then(|l| l.split(" in ").nth(1))
+                        .map(|f| f.split(' ').next().unwrap_or("?").to_string())
+                        .unwrap_or_else(|| "?".into());
+                    format!("asan:{kind}:{func}")
                 } else if err.contains("memory allocation of") {
                     "alloc failure".to_string()
                 } else {
@@ -294,20 +304,30 @@ pub fn run(o: SupOpts) -> i32 {
                         });
                     }
                 } else {
-                    let sig = format!("abort@{fe}/{why}/{fam}");
-                    *deaths.entry(sig.clone()).or_insert(0) += 1;
+                    let sig = if why.starts_with("asan:") { format!("{}@{fe}", why.replace("asan:", "asan/")) } else { format!("abort@{fe}/{why}/{fam}") };
+                    let n_same = {
+                        let e = deaths.entry(format!("{fe}|{why}")).or_insert(0);
+                        *e += 1;
+                        *e
+                    };
+                    // the same front-end dying the same way again and again would use up every restart:
+                    // after three identical deaths the front-end is skipped for the rest of the run
+                    if n_same == 3 && !skip_fes.contains(&fe) {
+                        skip_fes.push(fe.clone());
+                        sup.notes.push(format!("front-end {fe} skipped for the rest of this run after 3 identical worker deaths ({why})"));
+                    }
                     sup.finding("C01", &sig, wlen, || wit.clone(), || format!("worker process died: {why}"));
                 }
                 slots[i].resume = resume;
                 slots[i].poison.push(case_idx);
                 slots[i].restarts += 1;
-                if slots[i].restarts > 40 {
-                    sup.inconclusive.push(format!("shard {} restarted more than 40 times; rest of its stream not explored", slots[i].shard));
+                if slots[i].restarts > 200 {
+                    sup.inconclusive.push(format!("shard {} restarted more than 200 times; rest of its stream not explored", slots[i].shard));
                     slots[i].done = true;
                     continue;
                 }
                 slots[i].last_counter = u64::MAX;
-                let c = spawn(&o, &slots[i], None);
+                let c = spawn_with(&o, &slots[i], None, &skip_fes);
                 slots[i].pid = c.id();
                 slots[i].child = Some(c);
             }
